@@ -412,11 +412,53 @@ class PPMAdapter(Adapter):
                     sample_again=obj.sample(v, [2.0, 0.5, 1.0], n_samples=3, seed=4, return_df=False))
 
 
+class PMUserReducedAdapter(PMAdapter):
+    """PredictiveModel built from a ReducedErrorModel of the USER's (one parameter already fixed): two holders are built
+    from the same user models, the history is applied to one of them, the sibling must not notice (its mask and value
+    buffer are its own)."""
+    name = 'PredictiveModel[user ReducedErrorModel]'
+    container = 'PredictiveModel'
+
+    def __init__(self):
+        self._names = self._plain().get_parameter_names()
+        self.own = {'a': 'P2', 'b': 'Y1 Sigma base', 'c': 'Y2 Sigma rel.'}
+
+    def _user(self):
+        rem = chi.ReducedErrorModel(chi.ConstantAndMultiplicativeGaussianErrorModel())
+        rem.fix_parameters({'Sigma rel.': 0.25})
+        return probes.ProbeMech(2, 2, tag='fixusr'), [rem, chi.ConstantAndMultiplicativeGaussianErrorModel()]
+
+    def _build(self, u):
+        if self.container == 'PredictiveModel':
+            return chi.PredictiveModel(u[0], u[1])
+        return chi.LogLikelihood(u[0], u[1], [[1.2, 2.0, 1.7], [2.5, 3.1]], [[0.5, 1.0, 2.0], [1.0, 1.5]])
+
+    def _plain(self):
+        return self._build(self._user())
+
+    def base_values(self):
+        return [1.0, 0.8, 0.5, 0.4, 0.3]
+
+    def make(self):
+        self._u = self._user()
+        return self._build(self._u)
+
+    def sibling(self):
+        return self._build(self._u)
+
+
+class LLUserReducedAdapter(PMUserReducedAdapter):
+    name = 'LogLikelihood[user ReducedErrorModel]'
+    container = 'LogLikelihood'
+    prime = LLAdapter.prime
+    evaluate = LLAdapter.evaluate
+
+
 def adapters():
     return [ErrAdapter('G'), ErrAdapter('M'), ErrAdapter('C'), ErrAdapter('L'), MechAdapter(False), MechAdapter(True),
             PopAdapter('gauss2'), PopAdapter('composed'), PopAdapter('covariate'), LLAdapter(), PMAdapter(),
             LLAdapter({'a': 'P1', 'b': 'P2', 'c': 'Y2 Sigma base'}), PMAdapter({'a': 'P1', 'b': 'P2', 'c': 'Y1 Sigma'}),
-            CtrlAdapter('indiv'), CtrlAdapter('pop'), PPMAdapter()]
+            CtrlAdapter('indiv'), CtrlAdapter('pop'), PPMAdapter(), PMUserReducedAdapter(), LLUserReducedAdapter()]
 
 
 _ADAPTERS = {}
@@ -464,6 +506,7 @@ def replay_case(arg):
         with warnings.catch_warnings():
             warnings.simplefilter('error', RuntimeWarning)
             obj = ad.make()
+            sib = ad.sibling() if hasattr(ad, 'sibling') else None
             long_history = bool(rng.integers(2))
             primed = hasattr(ad, 'prime') and bool(rng.integers(2))
             if primed:
@@ -501,6 +544,15 @@ def replay_case(arg):
             cnt['evaluations'] = len(got)
             bad = [k for k in exp if k in got and not _cmp(got[k], exp[k])]
             missing = [k for k in exp if k not in got]
+            if sib is not None:
+                # the sibling holder, built from the same user models BEFORE the history, has nothing fixed of its own
+                cnt['siblings'] = 1
+                base_full = np.array([round(b * (1 + 0.07 * (i + 1)), 4) for i, b in enumerate(base)])
+                got_s = ad.evaluate(sib, base_full.copy())
+                exp_s = ad.evaluate(ad.plain(), base_full.copy(), full_mask=np.zeros(len(base), dtype=bool))
+                bad_s = [k for k in exp_s if k not in got_s or not _cmp(got_s[k], exp_s[k])]
+                if ad.names(sib) != all_names or bad_s:
+                    fail('SiblingUnaffected', '+'.join(bad_s) or 'names', dict(names=ad.names(sib), expected_names=all_names))
             if bad or missing:
                 fail('SubstitutionOK', '+'.join(bad + missing), dict(
                     long_history=long_history, primed=primed, got={k: np.asarray(got[k]).tolist() for k in bad},
